@@ -294,6 +294,23 @@ def verifyChannelDefinitions (env : Env) (defs : GoMap Nat ChanDef) : Bool :=
   let sids := (defs.flatMap fun e => e.2.streams.map (·.sid)).eraseDups
   sids.length ≤ env.maxStreamValues
 
+/-- `Plugin.ValidateObservation` on a decoded observation (`none` = accepted, `some cls` = rejected).
+    `emptyBytes` says whether the raw observation was the empty byte string (required for SeqNr 1);
+    a decode failure is reported by the caller before this function is reached. -/
+def validateObservation (env : Env) (cfg : Cfg) (seqNr : Nat) (emptyBytes : Bool) (o : Obs) : Option String :=
+  if seqNr < 1 then some "invalid-seqnr"
+  else if seqNr == 1 && !emptyBytes then some "non-empty-first-round"
+  else if !cfg.hasPred && o.attested.length != 0 then some "attestation-without-predecessor"
+  else if o.updates.length > env.maxUpdate then some "too-many-updates"
+  else if o.removes.length > env.maxRemove then some "too-many-removes"
+  else if !verifyChannelDefinitions env o.updates then some "invalid-definitions"
+  else if o.values.length > env.maxStreamValues then some "too-many-values"
+  else if o.values.any (fun e => match e.2 with
+      | .tsv _ (.dec _) => false
+      | .tsv _ _ => true
+      | _ => false) then some "nested-not-decimal"
+  else none
+
 /-- `ChannelDefinition.Equals` -/
 def ChanDef.equals (a b : ChanDef) : Bool := a.format == b.format && a.streams == b.streams && a.opts == b.opts
 
